@@ -205,11 +205,13 @@ class Check:
             out = r.stdout + r.stderr
             rel = str(props_path.relative_to(LEAN))
             hit = set()
-            for m in re.finditer(re.escape(rel) + r":(\d+):\d+: error", out):
-                ln = int(m.group(1))
-                for name, a, b in thms:
-                    if a <= ln <= b:
-                        hit.add(name)
+            for line in out.split("\n"):
+                m = re.search(re.escape(rel) + r":(\d+):\d+:", line)
+                if m and "error" in line:
+                    ln = int(m.group(1))
+                    for name, a, b in thms:
+                        if a <= ln <= b:
+                            hit.add(name)
             if not hit:
                 hit = set(self.obligations)  # failure upstream of the property file
             for name in sorted(hit):
